@@ -9,6 +9,7 @@ agree with them event by event.
 -/
 import Dawgs.Proofs.C11
 import Dawgs.Proofs.C11Data
+import Dawgs.Proofs.C11Nodup
 import Dawgs.Generated.C11
 namespace Dawgs.C11.Props
 open Dawgs.C11
@@ -124,19 +125,20 @@ end walk
 /-! ## C. The two Cypher walkers over a schema -/
 
 /-- `structural_visits_all`: if the structural constructor's branch table lists every node-typed field of every node
-type, then on every value without nil branches the structural walk returns nil, enters exactly the nodes of its
-branch tree (each once, pre-order), and these include every node the SCHEMA says the value has. -/
+type (and no field twice), then on every value without nil branches the structural walk returns nil, enters every
+node (identified by its access path in the value) AT MOST once, and enters every node the SCHEMA says the value
+has: every node exactly once. -/
 theorem structural_visits_all (T : Tables) (hT : branchesComplete T = true) (v : Val)
     (hg : (treeOf T T.structural v).good = true) :
     let r := generic (fun _ => Act.continue) (treeOf T T.structural v)
-    r.ret = some .ok ∧ enters r.log = (treeOf T T.structural v).labels ∧
-    ∀ l ∈ (treeOf T (schemaTab T) v).labels, l ∈ enters r.log := by
+    r.ret = some .ok ∧ (enters r.log).Nodup ∧ ∀ l ∈ (treeOf T (schemaTab T) v).labels, l ∈ enters r.log := by
   simp only [branchesComplete, Bool.and_eq_true] at hT
   obtain ⟨hret, hent⟩ := (plain_walk (treeOf T T.structural v)).1 hg
-  refine ⟨hret, hent, ?_⟩
-  intro l hl
-  rw [hent]
-  exact treeOf_sub T _ _ hT.1 hT.2 v hl
+  refine ⟨hret, ?_, ?_⟩
+  · rw [hent]; exact treeOf_nodup T _ hT.2 v
+  · intro l hl
+    rw [hent]
+    exact treeOf_sub T _ _ hT.1.1 hT.1.2 v hl
 
 /-- `semantic_subset_structural`: every node the semantic walk enters is entered by the structural walk -/
 theorem semantic_subset_structural (T : Tables) (hT : semanticSubset T = true) (v : Val)
@@ -226,7 +228,7 @@ theorem c11_copy_fixed (v : Val) (n : Nat) (hp : copyPanics tablesFixed v = fals
 apply to `tables` as they are -/
 theorem c11_walk (v : Val) (hg : (treeOf tables tables.structural v).good = true) :
     let r := generic (fun _ => Act.continue) (treeOf tables tables.structural v)
-    r.ret = some .ok ∧ enters r.log = (treeOf tables tables.structural v).labels ∧
+    r.ret = some .ok ∧ (enters r.log).Nodup ∧
     (∀ l ∈ (treeOf tables (schemaTab tables) v).labels, l ∈ enters r.log) ∧
     ((treeOf tables tables.semantic v).good = true →
       ∀ l ∈ enters (generic (fun _ => Act.continue) (treeOf tables tables.semantic v)).log, l ∈ enters r.log) := by
